@@ -568,6 +568,53 @@ pub fn large_bytes(g: &mut Gen, thorough: bool, out: &mut Sink) {
     }
 }
 
+// ------------------------------------------------------------------ C06
+
+pub type VRun = fn(&mut Gen, &Budget, &mut Sink);
+
+/// decoding a variant directly from its tag agrees with decoding the whole enum, for valid and
+/// for unknown tags
+pub fn c06_variant<T: Full + borsh::de::EnumExt>(g: &mut Gen, b: &Budget, out: &mut Sink) {
+    let ty = T::ty();
+    let mut inputs: Vec<Vec<u8>> = Vec::new();
+    for _ in 0..b.values {
+        let v = T::gen(g, 0);
+        if let (_, Some(bs)) = enc_obs(&v) {
+            inputs.push(bs);
+        }
+    }
+    // every tag byte with a few payloads, so that unknown tags are met
+    for tag in [0u8, 1, 2, 3, 7, 100, 199, 200, 254, 255] {
+        let mut x = vec![tag];
+        x.extend(g.bytes(6));
+        inputs.push(x);
+    }
+    for bs in inputs {
+        if bs.is_empty() {
+            continue;
+        }
+        let case = format!("dec {} {} {}", MODE, ty, hex(&bs));
+        let whole = match conv(guarded(|| {
+            let mut s = &bs[..];
+            T::deserialize(&mut s).map(|v| (v, s.len()))
+        })) {
+            Ok(Ok((v, rest))) => format!("ok {} rest={}", canon_of(&v), rest),
+            Ok(Err(e)) => e,
+            Err(p) => format!("panic {}", p.replace(' ', "_")),
+        };
+        out.case(&case, &whole);
+        let direct = match conv(guarded(|| {
+            let mut s = &bs[1..];
+            T::deserialize_variant(&mut s, bs[0]).map(|v| (v, s.len()))
+        })) {
+            Ok(Ok((v, rest))) => format!("ok {} rest={}", canon_of(&v), rest),
+            Ok(Err(e)) => e,
+            Err(p) => format!("panic {}", p.replace(' ', "_")),
+        };
+        out.oracle("C06", direct == whole, &case, &format!("deserialize_variant gave {} but the whole enum {}", direct, whole));
+    }
+}
+
 /// one catalogue entry, type-erased
 pub struct Entry {
     pub name: &'static str,
